@@ -3,26 +3,34 @@
    every run from the AST of ClientExchange.Run (exchange/client_flow.go) and the helpers in
    exchange/proto.go: one entry per blocking transport operation, in source order, with the
    flag "reaches conn.Send/Recv only under context.WithTimeout(ctx, timeout)". *)
-From Coq Require Import ZArith List Bool.
+From Coq Require Import ZArith List Bool Lia.
 From TD Require Import Gen.ExchangeSteps Model.ExchangeTimeout Proof.ExchangeTimeout.
 Import ListNotations.
 Open Scope Z_scope.
 
 (* Full statement: for EVERY configuration (PFS on/off, initial connect / key regeneration,
    caller deadline present or absent, any dial timeout), every exchange timeout, every blocking
-   operation of the client flow and every start time of that operation, the operation runs
-   under a finite deadline no later than start + timeout: a silent peer makes the exchange fail
-   by then. *)
+   operation of the client flow, every start time of that STEP and every number n / spacing gap of
+   frames the step skips while waiting (transport errors -404), the step runs under a finite
+   deadline no later than start + timeout: a peer that stops delivering what the step needs makes
+   the exchange fail by then. *)
 Theorem C12_every_step_bounded :
-  forall (c : config) (timeout start : Z) (op : Z * bool),
-    In op client_steps -> within (op_deadline (run_ctx c) timeout start (snd op)) (start + timeout).
+  forall (c : config) (timeout start n gap : Z) (o : op),
+    In o client_steps -> within (step_deadline (run_ctx c) timeout start n gap o) (start + timeout).
 Proof. exact every_step_bounded. Qed.
 Print Assumptions C12_every_step_bounded.
+
+(* The table has exactly the shape the flow has: send, receive, send, receive, send, receive.
+   A blocking call that the scanner stops listing (or a new one) breaks THIS proof; the scanner
+   itself refuses sources in which ctx is handed to a call it cannot classify or the connection
+   is aliased. *)
+Theorem C12_table_shape : map op_dir client_steps = [0; 1; 0; 1; 0; 1].
+Proof. vm_compute. reflexivity. Qed.
 
 (* Why the table matters: an operation that bypasses the helpers is unbounded exactly in the
    configurations in which Run receives a deadline-free context ... *)
 Theorem C12_bare_op_unbounded :
-  forall c timeout start dir, run_ctx c = Inf -> ~ step_bounded c timeout start (dir, false).
+  forall c timeout start n gap dir r, run_ctx c = Inf -> ~ step_bounded c timeout start n gap (dir, false, r).
 Proof. exact bare_op_unbounded. Qed.
 Print Assumptions C12_bare_op_unbounded.
 
@@ -32,15 +40,28 @@ Theorem C12_deadline_free_configs :
 Proof. exact run_ctx_inf_iff. Qed.
 Print Assumptions C12_deadline_free_configs.
 
-(* The table of the code BEFORE the repair (steps 5 and 7 called conn.Recv directly), kept as
-   the documented witness: PFS connect, no caller deadline, peer silent at Server_DH_Params. *)
-Definition steps_before_fix : list (Z * bool) :=
-  [(0, true); (1, true); (0, true); (1, false); (0, true); (1, false)].
+(* A step whose loop arms a fresh timeout for every skipped frame outlives the timeout by n * gap
+   (second repaired defect: readUnencrypted's -404 loop). *)
+Theorem C12_restart_op_late :
+  forall c timeout start n gap dir, run_ctx c = Inf -> 0 < n * gap -> ~ step_bounded c timeout start n gap (dir, true, true).
+Proof. exact restart_op_late. Qed.
+Print Assumptions C12_restart_op_late.
+
+(* The tables of the code BEFORE the repairs, kept as documented witnesses:
+   (1) steps 5 and 7 called conn.Recv directly; (2) the ResPQ read re-armed its timeout per -404. *)
+Definition steps_before_fix : list op :=
+  [(0, true, false); (1, true, true); (0, true, false); (1, false, false); (0, true, false); (1, false, false)].
 Example C12_old_table_refuted :
-  exists c op, In op steps_before_fix /\ ~ step_bounded c 150 0 op.
+  exists c o, In o steps_before_fix /\ ~ step_bounded c 150 0 0 0 o.
 Proof.
-  exists {| cfg_pfs := true; cfg_regen := false; cfg_caller := Inf; cfg_connect_start := 0; cfg_dial_timeout := 35000 |}, (1, false).
+  exists {| cfg_pfs := true; cfg_regen := false; cfg_caller := Inf; cfg_connect_start := 0; cfg_dial_timeout := 35000 |}, (1, false, false).
   split; [cbn; tauto|]. apply bare_op_unbounded. reflexivity.
+Qed.
+Example C12_old_404_loop_refuted :
+  exists c o, In o steps_before_fix /\ ~ step_bounded c 400 0 8 280 o.
+Proof.
+  exists {| cfg_pfs := true; cfg_regen := false; cfg_caller := Inf; cfg_connect_start := 0; cfg_dial_timeout := 35000 |}, (1, true, true).
+  split; [cbn; tauto|]. apply restart_op_late; [reflexivity|lia].
 Qed.
 
 (* non-vacuity: the table is not empty and has both directions *)
